@@ -15,7 +15,7 @@ def pair_case(calls, ops):
         out += [kind] + spec
     out.append(len(ops))
     for o in ops:
-        out += [0, o[1]] if o[0] == "it" else ([2, o[1]] if o[0] == "seek" else [3])
+        out += [0, o[1]] if o[0] == "it" else ([2, o[1]] if o[0] == "seek" else ([6] if o[0] == "readall" else [3]))
     return out
 
 
@@ -46,6 +46,19 @@ def parse_pair(r, ncalls, ops):
             outs.append({"items": items, "ended": c.next()})
         elif o[0] == "seek":
             outs.append({"seek": c.res_unit()})
+        elif o[0] == "readall":
+            t = c.next()
+            if t == 0:
+                k = c.next()
+                pairs = []
+                for _ in range(k):
+                    start = c.i
+                    shapes.parse_shape(c)
+                    sh = c.v[start:c.i]
+                    pairs.append(("ok", sh, c.next()))
+                outs.append({"items": pairs, "ended": 1})
+            else:
+                outs.append({"items": [("err",) + tuple(c.err())], "ended": 1})
         else:
             t = c.next()
             outs.append({"count": c.next() if t == 0 else None})
@@ -84,7 +97,9 @@ def run(rep, tier, rng):
             calls = [(0, a) if ch == "a" else (0, b) if ch == "b" else (0, x) if ch == "x" else (1, a) if ch == "m" else (2, b)
                      for ch in h]
             n_ok = sum(1 for ch in h if ch in "ab")
-            ops = [("count",), ("it", -1), ("seek", min(1, n_ok)), ("it", 1), ("it", -1)]
+            # count, everything, seek, one pair, the rest; then again: seek and the bulk read (`Reader::read`), which
+            # starts where the reader stands, shapes and rows alike
+            ops = [("count",), ("it", -1), ("seek", min(1, n_ok)), ("it", 1), ("it", -1), ("seek", min(1, n_ok)), ("readall",)]
             cases.append(pair_case(calls, ops))
             meta.append((h, calls, ops, code))
     # more than 1024 pairs
@@ -156,7 +171,9 @@ def run(rep, tier, rng):
                         msg = "shape_count %r, %d pairs written" % (out["count"], n)
                     elif o[0] == "seek":
                         pos = min(o[1], n)
-                    elif o[0] == "it":
+                    elif o[0] in ("it", "readall"):
+                        if o[0] == "readall":
+                            o = ("it", -1)
                         want = exp[pos:] if o[1] < 0 else exp[pos:pos + o[1]]
                         got = out["items"]
                         if len(got) != len(want):
@@ -184,8 +201,30 @@ def run(rep, tier, rng):
         else:
             rep.violation({"kind": "oracle", "what": "a call whose row is rejected leaves unequal entry counts (shape written, row not)",
                            "case_kind": "pair", "case": cases[[i for i, m in enumerate(meta) if any(ch in 'mt' for ch in m[0])][0]]})
+    # ---- by path: two shapefiles with attribute tables side by side whose names share their first part
+    # (`roads.north`, `roads.south`): each keeps its own .shx and .dbf
+    import os
+    import shutil
+    import subprocess
+    d = os.path.join(sfv.CACHE, "tmp", "c08pp")
+    shutil.rmtree(d, ignore_errors=True)
+    os.makedirs(d, exist_ok=True)
+    pr = subprocess.run([os.path.join(sfv.TARGET, "debug", "runner"), "pathpair", d], stdout=subprocess.PIPE, text=True, timeout=120)
+    lines = [l for l in pr.stdout.splitlines() if not l.startswith("WARNING")]
+    want = "5 10 1000 11 1001 12 1002 13 1003 14 1004"
+    present = sorted(os.listdir(d))
+    shutil.rmtree(d, ignore_errors=True)
+    if lines[:2] != [want, want]:
+        nfail += 1
+        rep.violation({"kind": "oracle", "what": "two shapefiles written side by side by path (roads.north, roads.south): reading the first back gives %r, "
+                       "expected its own 5 pairs %r; files present: %r" % (lines[:2], want, present), "case_kind": "path"})
+    elif present != ["roads.north.dbf", "roads.north.shp", "roads.north.shx", "roads.south.dbf", "roads.south.shp", "roads.south.shx"]:
+        nfail += 1
+        rep.violation({"kind": "oracle", "what": "Writer::from_path left the files %r" % (present,), "case_kind": "path"})
+    rep.cov["path_pairs_side_by_side"] = 1
     rep.cov["known_finding_F10_cases"] = f10
     rep.sample({"history": "".join(meta[17][0]), "alphabet": "a,b = acceptable pairs; x = shape of another type; m,t = rejected rows"})
     rep.cov["oracle"] = {"checked": len(cases), "failing": nfail}
     rep.assumptions += ["dbase (TableWriter, Reader, RecordIterator, seek) is modelled as an ordered row store, not verified",
-                        "files created and opened by path (Writer::from_path / Reader::from_path) are not exercised here"]
+                        "files created and opened by path (Writer::from_path / Reader::from_path): one fixed scenario (two "
+                        "shapefiles side by side under dotted names), implementation only"]
